@@ -1971,3 +1971,31 @@ M('c18-twin-unix-padding-helper', 'C18', 'silent',
    '''            src_path = src_addr.rstrip(b'\\x00')
             dst_path = dst_addr.rstrip(b'\\x00')
             return src_path, dst_path''', 1))
+
+# ------------------------------------------------- store-back (C01/C03/C15)
+DICTF = 'slimta/queue/dict.py'
+M('c03-dict-marks-on-temporary', 'C03', 'fire:R3.8',
+  (DICTF, '''        envelope = self.env_db[id]
+        self._remove_delivered_rcpts(envelope, rcpt_indexes)
+        self.env_db[id] = envelope''',
+   '''        self._remove_delivered_rcpts(self.env_db[id], rcpt_indexes)''', 1))
+M('c01-dict-attempts-in-place', 'C01', 'fire:R1.13',
+  (DICTF, '''        meta = self.meta_db[id]
+        new_attempts = meta['attempts'] + 1
+        meta['attempts'] = new_attempts
+        self.meta_db[id] = meta''',
+   '''        self.meta_db[id]['attempts'] += 1
+        new_attempts = self.meta_db[id]['attempts']''', 1))
+M('c15-dict-timestamp-not-stored-back', 'C15', 'fire:I12',
+  (DICTF, '''        meta = self.meta_db[id]
+        meta['timestamp'] = timestamp
+        self.meta_db[id] = meta''',
+   '''        meta = self.meta_db[id]
+        meta['timestamp'] = timestamp''', 1))
+M('c15-twin-dict-record-renamed', 'C15', 'silent',
+  (DICTF, '''        meta = self.meta_db[id]
+        meta['timestamp'] = timestamp
+        self.meta_db[id] = meta''',
+   '''        record = self.meta_db[id]
+        record['timestamp'] = timestamp
+        self.meta_db[id] = record''', 1))
